@@ -41,13 +41,13 @@ Variable tm : terms.
 Variable sp : sep.
 Variable o : opts.
 
-Definition satb (v : pyval) : bool :=
-  match term_matches lit re_search tm v with Ok true => true | _ => false end.
+Definition satb (s : node) : bool :=
+  match term_matches lit re_search tm (node_hay s) with Ok true => true | _ => false end.
 
 Definition val_enum (rec : node -> loc -> list (loc * hkind)) (v : node) (lc' : loc)
   : list (loc * hkind) :=
   if is_container v then rec v lc'
-  else if o_values o && satb (key_val v) then [(lc', HValue)] else [].
+  else if o_values o && satb v then [(lc', HValue)] else [].
 
 (* the leaf descendants of a node, as locations *)
 Fixpoint leaves (n : node) (lc : loc) {struct n} : list loc :=
@@ -66,11 +66,11 @@ Definition key_hit_enum (v : node) (lc' : loc) : list (loc * hkind) :=
 Definition entry_enum (rec : node -> loc -> list (loc * hkind)) (lc : loc) (kv : node * node)
   : list (loc * hkind) :=
   let lc' := (lc ++ [key_ref (fst kv)])%list in
-  if o_keys o && satb (key_val (fst kv)) then key_hit_enum (snd kv) lc'
+  if o_keys o && satb (fst kv) then key_hit_enum (snd kv) lc'
   else val_enum rec (snd kv) lc'.
 
 Definition member_enum (lc : loc) (k : node) : list (loc * hkind) :=
-  if satb (key_val k) then [((lc ++ [member_ref k])%list, HMember)] else [].
+  if satb k then [((lc ++ [member_ref k])%list, HMember)] else [].
 
 Fixpoint enum (n : node) (lc : loc) {struct n} : list (loc * hkind) :=
   match n with
@@ -165,9 +165,9 @@ Proof.
   - reflexivity.
 Qed.
 
-Lemma satb_true v : term_matches lit re_search tm v = Ok true -> satb v = true.
+Lemma satb_true v : term_matches lit re_search tm (node_hay v) = Ok true -> satb v = true.
 Proof. unfold satb. intros ->. reflexivity. Qed.
-Lemma satb_false v : term_matches lit re_search tm v = Ok false -> satb v = false.
+Lemma satb_false v : term_matches lit re_search tm (node_hay v) = Ok false -> satb v = false.
 Proof. unfold satb. intros ->. reflexivity. Qed.
 
 Lemma map_floop {A B C} (f : B -> C) (g : A -> nat -> list B) (l : list A) : forall idx,
@@ -244,7 +244,7 @@ Proof.
     rewrite Hu in E; simpl in E;
     (destruct (is_container v); [apply Hrec; exact E|]);
     (destruct (o_values o); simpl;
-     [ destruct (term_matches lit re_search tm (key_val v)) as [[|]| |] eqn:Em; simpl in E; try discriminate;
+     [ destruct (term_matches lit re_search tm (node_hay v)) as [[|]| |] eqn:Em; simpl in E; try discriminate;
        inversion E; subst; simpl;
        [rewrite (satb_true _ Em) | rewrite (satb_false _ Em)]; reflexivity
      | inversion E; reflexivity ]).
@@ -289,7 +289,7 @@ Proof.
     rewrite Forall_forall in IH. destruct (IH _ Hin) as [_ IHv].
     destruct (o_keys o); simpl in *.
     + rewrite Hk1 in Eb.
-      destruct (term_matches lit re_search tm (key_val (fst kv))) as [[|]| |] eqn:Em; simpl in Eb; try discriminate.
+      destruct (term_matches lit re_search tm (node_hay (fst kv))) as [[|]| |] eqn:Em; simpl in Eb; try discriminate.
       * rewrite (satb_true _ Em).
         destruct (report lit re_search mt tm sp o (snd kv) _ _ HKey s2) as [hs| |] eqn:Er; simpl in Eb; try discriminate.
         inversion Eb; subst. eapply report_enum; eauto.
@@ -315,7 +315,7 @@ Proof.
       as [ka [s1 [Ek [H1 [H2 [H3 H4]]]]]].
     rewrite Ek in Eb. simpl in Eb. rewrite H3, H1 in Eb.
     unfold member_enum.
-    destruct (term_matches lit re_search tm (key_val k)) as [[|]| |] eqn:Em; simpl in Eb; try discriminate;
+    destruct (term_matches lit re_search tm (node_hay k)) as [[|]| |] eqn:Em; simpl in Eb; try discriminate;
       inversion Eb; subst; simpl;
       [rewrite (satb_true _ Em) | rewrite (satb_false _ Em)]; reflexivity.
 Qed.
